@@ -336,6 +336,12 @@ def obligations(tier):
             if q:
                 pre = pre.replace(ck.format(v='d'), '(d == 9 or d == 1 or d == 2 or d == 3 or d == 6)')
             obs.append(Ob(mode_extent, fixed=fx, pre=pre, name='mode_extent_%s_%s' % (KIND_NAMES[root], 'leaf' if c0 == LEAF else KIND_NAMES[c0]), timeout=120))
+    if q:
+        # wrapper -> chaining node -> anything: a chain that itself runs in a non-Auto mode
+        for ka in (W_FILL, W_MATCH, W_AUTO):
+            for kb in (K_PIPE, K_SWITCH, K_COAL):
+                obs.append(Ob(mode_chain3, fixed={'k_a': ka, 'k_b': kb}, pre='0 <= k_c <= 8 and 0 <= side <= 1',
+                              name='mode_chain3_%s_%s' % (KIND_NAMES[ka], KIND_NAMES[kb])))
     if not q:
         for ka in range(9):
             for kb in range(9):
